@@ -6,6 +6,7 @@
 -/
 import CedarGo.Model.Fold
 import CedarGo.Generated.Facts
+import CedarGoProofs.Lemmas.RecordLit
 namespace CedarGo
 
 /-! ### Literal-only operands make the closed operators independent of the environment -/
@@ -23,15 +24,19 @@ theorem evalList_lits (es : List Expr) (h : es.all Expr.isLit = true) (env env' 
     obtain ⟨v, rfl⟩ := isLit_eq h.1
     simp only [evalList, eval, ih h.2]
 
-theorem evalKVs_lits (kes : List (String × Expr)) (h : kes.all (fun ke => ke.2.isLit) = true) (env env' : Env) :
-    evalKVs kes env = evalKVs kes env' := by
+/-- a record literal whose entries are all literals evaluates alike in every environment -/
+theorem evalRecord_lits (kes : List (String × Expr)) (h : kes.all (fun ke => ke.2.isLit) = true) (env env' : Env) :
+    eval (.record kes) env = eval (.record kes) env' := by
+  apply eval_recordLit_congr
+  apply List.map_congr_left
+  intro ke hke
+  obtain ⟨v, hv⟩ := isLit_eq (List.all_eq_true.mp h ke hke)
+  simp only [hv, eval]
+
+theorem foldKVs_eq_map (kes : List (String × Expr)) : foldKVs kes = kes.map (fun ke => (ke.1, fold ke.2)) := by
   induction kes with
-  | nil => rfl
-  | cons ke kes ih =>
-    obtain ⟨k, e⟩ := ke
-    simp only [List.all_cons, Bool.and_eq_true] at h
-    obtain ⟨v, rfl⟩ := isLit_eq h.1
-    simp only [evalKVs, eval, ih h.2]
+  | nil => simp [foldKVs]
+  | cons ke kes ih => obtain ⟨k, e⟩ := ke; simp only [foldKVs, List.map_cons, ih]
 
 theorem evalTyped_lits (es : List Expr) (ks : List Kind) (h : es.all Expr.isLit = true) (env env' : Env) :
     evalTyped es ks env = evalTyped es ks env' := by
@@ -161,13 +166,13 @@ theorem C04_fold_preserves : ∀ (e : Expr) (env : Env), eval (fold e) env = eva
       simp only [Bool.not_false, Bool.and_true] at hc
       simp only [eval, evalList_lits _ hc env env']
   | .record kes, env => by
-    have ih := C04_foldKVs_preserves kes
+    have ih := C04_foldKVs_preserves kes env
     simp only [fold]
     rw [tryFoldNode_preserves]
-    · simp only [eval, ih]
+    · rw [foldKVs_eq_map]; exact eval_recordLit_map fold kes env ih
     · intro hc env env'
       simp only [Bool.not_false, Bool.and_true] at hc
-      simp only [eval, evalKVs_lits _ hc env env']
+      exact evalRecord_lits _ hc env env'
   | .call fn args, env => by
     have ih := C04_foldTyped_preserves args
     have hlen : (foldList args).length = args.length := foldList_length args
@@ -181,10 +186,16 @@ theorem C04_foldList_preserves : ∀ (es : List Expr) (env : Env), evalList (fol
   | [], _ => rfl
   | e :: es, env => by
     simp only [foldList, evalList, C04_fold_preserves e env, C04_foldList_preserves es env]
-theorem C04_foldKVs_preserves : ∀ (kes : List (String × Expr)) (env : Env), evalKVs (foldKVs kes) env = evalKVs kes env
-  | [], _ => rfl
+/-- every entry of a record literal keeps its meaning (the literal evaluates its entries in key order,
+    `eval_recordLit`; `foldKVs` keeps keys and positions, so the folded literal evaluates the same
+    entries in the same order) -/
+theorem C04_foldKVs_preserves : ∀ (kes : List (String × Expr)) (env : Env), ∀ ke ∈ kes, eval (fold ke.2) env = eval ke.2 env
+  | [], _ => by intro ke h; cases h
   | (k, e) :: kes, env => by
-    simp only [foldKVs, evalKVs, C04_fold_preserves e env, C04_foldKVs_preserves kes env]
+    intro ke h
+    rcases List.mem_cons.mp h with h | h
+    · rw [h]; exact C04_fold_preserves e env
+    · exact C04_foldKVs_preserves kes env ke h
 theorem C04_foldTyped_preserves : ∀ (es : List Expr) (ks : List Kind) (env : Env),
     evalTyped (foldList es) ks env = evalTyped es ks env
   | [], _, _ => rfl
